@@ -69,6 +69,9 @@ type cmp struct {
 }
 
 func (k cmp) fail(op, wantClass, gotClass string, got, want any) {
+	if wantClass == gotClass {
+		gotClass += " (other value / other byte named)"
+	}
 	k.res.Mismatch(abs.Mismatch{
 		Sig:  fmt.Sprintf("tenant:%s want=%s got=%s", op, wantClass, gotClass),
 		Case: k.c.brief(), Got: got, Want: want, Note: op,
